@@ -233,7 +233,10 @@ def nd_getitem(ex, arr, key, prefer_vec=False):
     e, i = arr.snapshot()
     r = NDArray(out_shape, lambda idx: e(imap(idx)), arr.dtype, init=lambda idx: i(imap(idx)))
     if prefer_vec and len(out_shape) == 1 and isinstance(out_shape[0], int):
-        return Vec([r.elem((t,)) for t in range(out_shape[0])])
+        try:
+            return Vec([r.elem((t,)) for t in range(out_shape[0])])
+        except Unsupported:
+            return r          # elements are structured values selected by symbolic indices: kept lazy
     return r
 
 
@@ -532,11 +535,33 @@ def np_linspace(ex, args, kw):
         if nc == 1:
             return NDArray([1], lambda idx: a, "f8")
         return NDArray([0], lambda idx: a, "f8")
-    step = ex.ctx.fresh("linstep", "real")
     n3 = to_z3(n)
-    ex.ctx.assume(z3.Implies(n3 > 1, step * to_real(n3 - 1) == to_real(b) - to_real(a)))
     ex.ctx.check_or_raise(n3 >= 0, "ValueError", "Number of samples must be non-negative")
-    r = NDArray([n], lambda idx: zite(to_z3(n3) == 1, to_real(a), to_real(a) + to_real(idx[0]) * step), "f8")
+    # step = (b - a)/(n - 1) for n > 1 (for n == 1 the only element is a, whatever the step).  Where the task names a
+    # candidate d and the path condition proves b - a == n*d - d, the step IS d (cancellation of n - 1 != 0 in the
+    # reals), so that code and specification build the same terms; otherwise a fresh real with its defining equation.
+    step = None
+    for d in ex.ctx.ghost.get("linstep_hints", []):
+        if ex.ctx.entails(z3.Implies(n3 > 1, to_real(b) - to_real(a) == to_real(n3) * d - d)):
+            step = d
+            break
+    if step is None:
+        step = ex.ctx.fresh("linstep", "real")
+        ex.ctx.assume(z3.Implies(n3 > 1, step * to_real(n3 - 1) == to_real(b) - to_real(a)))
+    reads = ex.ctx.ghost.setdefault("linspace_reads", [])
+    # the grid is an uninterpreted function G with the (instantiable) definition G(t) = a + t*step and the real-arithmetic
+    # consequence 'strictly increasing when step > 0' (lemma schema: t < u and s > 0  =>  t*s < u*s), so that quantified
+    # facts about grid positions (np.where / any) have G(t) as their trigger
+    G = z3.Function(f"linspace!{ex.ctx.path_id}_{len(ex.ctx.assumptions)}", z3.IntSort(), z3.RealSort())
+    t_, u_ = z3.Int("ls_t"), z3.Int("ls_u")
+    ex.ctx.assume(z3.ForAll([t_], G(t_) == to_real(a) + to_real(t_) * step, patterns=[G(t_)]))
+    ex.ctx.assume(z3.ForAll([t_, u_], z3.Implies(z3.And(step > 0, t_ < u_), G(t_) < G(u_)), patterns=[z3.MultiPattern(G(t_), G(u_))]))
+
+    def elem(idx):
+        v = G(to_z3(idx[0]))
+        reads.append((v, idx[0]))          # ghost: which index a value of the grid was read at (witness hints for specs)
+        return v
+    r = NDArray([n], elem, "f8")
     r.linspace = (a, b, n, step)
     return r
 
@@ -636,7 +661,12 @@ def nd_any(ex, self, args, kw):
         raise Unsupported("any() on rank > 1")
     t = z3.Int(f"any_t!{ex.ctx.path_id}_{len(ex.ctx.pc)}_{len(ex.ctx.assumptions)}")
     e, _ = a.snapshot()
-    return z3.Exists([t], z3.And(t >= 0, t < to_z3(a.shape[0]), to_z3(e((t,)))))
+    from .parents import _triggers
+    body = to_z3(e((t,)))
+    trig = _triggers(body, t)
+    if trig:
+        return z3.Exists([t], z3.And(t >= 0, t < to_z3(a.shape[0]), body), patterns=trig)
+    return z3.Exists([t], z3.And(t >= 0, t < to_z3(a.shape[0]), body))
 
 
 @lib(NP, "concatenate")
@@ -912,8 +942,23 @@ def np_repeat(ex, args, kw):
 
 @lib(NP, "where")
 def np_where(ex, args, kw):
+    if len(args) == 3:
+        c, a, b = args
+        if isinstance(c, Vec) and all(isinstance(x, (Vec,)) or _is_scalar(x) for x in (a, b)):
+            n = len(c.items)
+            ai = a.items if isinstance(a, Vec) else [a] * n
+            bi = b.items if isinstance(b, Vec) else [b] * n
+            return Vec([zite(cc, x, y) for cc, x, y in zip(c.items, ai, bi)])
+        C = as_ndarray(c)
+        ce, _ = C.snapshot()
+        r = nd_elementwise(ex, lambda x, y: (x, y), a, b)
+        A, B_ = as_ndarray(a), as_ndarray(b)
+        shape, ma, mb = broadcast_shapes(ex, A.shape, B_.shape)
+        ae, _ = A.snapshot()
+        be, _ = B_.snapshot()
+        return NDArray(shape, lambda idx: zite(ce(idx), ae(ma(idx)), be(mb(idx))), A.dtype)
     if len(args) != 1:
-        raise Unsupported("np.where with three arguments")
+        raise Unsupported("np.where with two arguments")
     c = as_ndarray(args[0])
     if c.ndim != 1:
         raise Unsupported("np.where on rank > 1")
@@ -950,3 +995,37 @@ def nd_astype(ex, self, args, kw):
 @builtin("len")
 def bi_len_np(ex, args, kw):      # extended in builtins.py (this registers array support)
     raise NotImplementedError
+
+
+@lib(NP, "diff")
+def np_diff(ex, args, kw):
+    v = args[0]
+    if isinstance(v, (list, tuple)):
+        v = Vec(v)
+    if isinstance(v, Vec):
+        return Vec([b - a for a, b in zip(v.items, v.items[1:])])
+    a = as_ndarray(v)
+    if a.ndim != 1:
+        raise Unsupported("np.diff on rank > 1")
+    e, _ = a.snapshot()
+    return NDArray([zmax(a.shape[0] - 1, 0)], lambda idx: e((idx[0] + 1,)) - e((idx[0],)), a.dtype)
+
+
+@lib(NP, "any")
+def np_any(ex, args, kw):
+    return nd_any(ex, args[0] if isinstance(args[0], (NDArray, Vec)) else Vec(list(args[0])), [], {})
+
+
+@lib(NP, "nonzero")
+def np_nonzero(ex, args, kw):
+    return np_where(ex, [args[0]], {})
+
+
+@attr("DType", "kind")
+def dtype_kind(ex, self):
+    return {"int": "i", "bool": "b", "f8": "f", "f4": "f", "str": "U", "object": "O"}.get(self.name, "O")
+
+
+@attr("DType", "itemsize")
+def dtype_itemsize(ex, self):
+    return {"int": 8, "bool": 1, "f8": 8, "f4": 4}.get(self.name, 8)
